@@ -16,7 +16,9 @@ LOCKSPECS = [
     LockSpec(f"{LT}:LocationTableEntry", {"dpl_set": "dpl_lock", "dpl_deque": "dpl_lock", "tst": "tst_lock"}, props=["C15"]),
     LockSpec(f"{L}.dictionary_database:DictionaryDataBase", {"database": "_lock", "_next_id": "_lock"}, props=["C16"]),
     LockSpec(f"{L}.ldm_service:LDMService", {"data_provider_its_aid": "_lock", "data_consumer_its_aid": "_lock",
-                                            "subscriptions": "_lock", "last_checked_subscriptions_time": "_lock"}, props=["C16"]),
+                                            "subscriptions": "_lock", "last_checked_subscriptions_time": "_lock"}, props=["C16"],
+             snapshot_order=[("subscriptions", "data_consumer_its_aid",
+                              "a consumer that registers and subscribes in between is seen subscribed but not registered, and its subscription is dropped")]),
     IdentitySpec(f"{L}.ldm_classes:SubscribeDataobjectsReq", props=["C14"],
                  note="the subscription identifier is hash(SubscribeDataobjectsReq): hash() is modelled as an uninterpreted function of ALL fields, which is only right while every field takes part in the generated __hash__ and __eq__"),
 ]
